@@ -1078,7 +1078,10 @@ func c38Plans(c *Ctx) []c38Plan {
 			{"gc-flatten", 1500, 0, map[string]int{"mem": 128 << 10, "nmem": 2, "l0": 2, "stall": 4, "vlen": pick(1500, 3000)}},
 			{"batch-subscribe", 1500, 0, map[string]int{"mem": 256 << 10, "nmem": 2, "l0": 2, "stall": 3}},
 			{"streamwriter", 0, 0, map[string]int{"mem": 256 << 10, "nmem": 2, "l0": 2, "stall": 3, "swbatches": pick(10, 40)}},
-			{"close-vs-newtxn", 12, pick(6, 10), map[string]int{"mem": 256 << 10, "writers": pick(4, 8)}},
+			{"close-vs-newtxn", 12, pick(2, 4), map[string]int{"mem": 256 << 10, "writers": pick(4, 8)}},
+			{"close-vs-drop", 0, pick(3, 6), map[string]int{"mem": 128 << 10, "nmem": 2, "l0": 1, "stall": 2}},
+			{"f14-forced", 0, 1, map[string]int{"flavour": 0}},
+			{"f14-forced", 0, 1, map[string]int{"flavour": 1}},
 		}
 	}
 	var out []c38Plan
@@ -1111,6 +1114,9 @@ func runC38(c *Ctx) error {
 			defer func() { <-sem }()
 			spec := c38Spec{Scenario: p.name, Seed: c.Seed*1000 + int64(i), DurMs: p.dur, Trials: p.trials,
 				DeadlineMs: 60000, PostCloseM: 10000, P: p.p}
+			if p.name == "f14-forced" || p.name == "close-vs-newtxn" {
+				spec.PostCloseM = 5000 // forced / near-certain schedules: Close has returned, no server goroutine is left
+			}
 			runs[i] = c38RunChild(c, i, spec, 240*time.Second)
 		}(i, p)
 	}
@@ -1127,6 +1133,9 @@ func c38Report(c *Ctx, i int, r *c38Run) {
 	// property oracle: every public call of the scenario returned (and the process survived)
 	c.Oracle(sig == "", sig, what, ev)
 	if !r.HaveRes {
+		if sig != "" {
+			c38EmitCases(c, r, sig)
+		}
 		return
 	}
 	// per-API oracle evaluations: each API exercised in this run returned every time
@@ -1166,5 +1175,279 @@ func c38KVBuf(b, n int) *z.Buffer {
 	return buf
 }
 
-// c38EmitCases: filled in with the model correspondence (see below).
-func c38EmitCases(c *Ctx, r *c38Run, sig string) {}
+// ---------------------------------------------------------------------------------------------
+// correspondence with coq/B/Blocking.v (corr/CorrC38.v): programs built from the observation
+// ---------------------------------------------------------------------------------------------
+
+type c38Prog struct{ ins []string }
+
+func (p *c38Prog) do(ls ...string) {
+	for _, l := range ls {
+		p.ins = append(p.ins, "Do "+l)
+	}
+}
+func c38Fills(f []bool) string {
+	xs := make([]string, len(f))
+	for i, b := range f {
+		xs[i] = Bool(b)
+	}
+	return ListOf(xs)
+}
+func (p *c38Prog) run(k int, f []bool) { p.ins = append(p.ins, fmt.Sprintf("Run %d %s", k, c38Fills(f))) }
+func (p *c38Prog) runQ(f []bool)       { p.ins = append(p.ins, "RunQ "+c38Fills(f)) }
+func (p *c38Prog) term() string        { return ListOf(p.ins) }
+
+// one commit pushed into writeCh by explicit labels (needs the lock free and writes unblocked)
+func (p *c38Prog) send() { p.do("E_commit", "L_acq", "H_ts", "H_check", "H_send") }
+
+// a commit parked holding its timestamp, before the blockWrites check
+func (p *c38Prog) parkTs() { p.do("E_commit", "L_acq", "H_ts") }
+
+type c38Exp struct {
+	ok, blk, rd, drop, dblk int
+	closed, crashed         bool
+	hungC, hungR            int
+}
+
+func (e c38Exp) term() string {
+	return fmt.Sprintf("(mkEobs %d %d %d %d %d %s %s %d %d)", e.ok, e.blk, e.rd, e.drop, e.dblk, Bool(e.closed), Bool(e.crashed), e.hungC, e.hungR)
+}
+
+func c38Min(a, b int) int {
+	if a < b {
+		return a
+	}
+	return b
+}
+
+// stallPrefix drives the model into the state the real counters showed: level 0 at the stall
+// limit with the flusher holding a table (stall), optionally flushChan full and the next write
+// finding no room. Returns the number of commits acknowledged so far by the prefix and the
+// number of requests still in the pipeline.
+func (p *c38Prog) stallPrefix(m, s int, full bool) (acked int, inflight int) {
+	one := func() { p.send(); p.do("W_recv", "W_push") }
+	// commits 1..s+1: each fills a memtable; from the 2nd on the previous one is rotated and flushed
+	for i := 1; i <= s+1; i++ {
+		one()
+		if i > 1 {
+			p.do("J_rotate")
+		}
+		p.do("(J_write true)", "J_done")
+		acked++
+		if i > 1 {
+			p.do("F_take", "F_add")
+		}
+	}
+	// level 0 = s: the next flush stalls
+	one()
+	p.do("J_rotate", "(J_write true)", "J_done", "F_take")
+	acked++
+	if !full {
+		return acked, 0
+	}
+	for i := 0; i < m; i++ { // fill flushChan
+		one()
+		p.do("J_rotate", "(J_write true)", "J_done")
+		acked++
+	}
+	one() // memtable full, flushChan full: ensureRoomForWrite has no room
+	return acked, 1
+}
+
+func c38CfgArgs(sn c38Snap) (n, b, m, t, s, k int) {
+	n, m, t, s, k = sn.WriteChCap, sn.FlushChCap, sn.L0Compact, sn.L0Stall, sn.NumCompactor
+	if n == 0 {
+		n = 1000
+	}
+	if m == 0 {
+		m = 2
+	}
+	if s == 0 {
+		t, s = 1, 2
+	}
+	if k == 0 {
+		k = 2
+	}
+	return n, 3 * n, m, t, s, k
+}
+
+func c38Sum(m map[string]int, keys ...string) int {
+	t := 0
+	for _, k := range keys {
+		t += m[k]
+	}
+	return t
+}
+
+// c38EmitCases writes the correspondence cases of one scenario run.
+func c38EmitCases(c *Ctx, r *c38Run, sig string) {
+	res := &r.Res
+	n, b, m, t, s, k := c38CfgArgs(res.Snap)
+	cfg := fmt.Sprintf("%d %d %d %d %d %d", n, b, m, t, s, k)
+	emit := func(kind string, strict bool, p *c38Prog, e c38Exp, variant int) {
+		term := fmt.Sprintf("Outcome %s %s %s %s", Bool(strict), cfg, p.term(), e.term())
+		c.Case("outcome:"+kind, term, map[string]interface{}{"scenario": r.Spec.Scenario, "seed": r.Spec.Seed, "variant": variant,
+			"calls": res.Calls, "prog_len": len(p.ins), "exp": fmt.Sprintf("%+v", e)})
+	}
+	if res.Snap.N > 0 {
+		c.Case("snap", fmt.Sprintf("Snap %d %d %d %d %d %d", n, m, s, res.Snap.MaxWriteCh, res.Snap.MaxFlushCh, res.Snap.MaxL0),
+			map[string]interface{}{"scenario": r.Spec.Scenario, "seed": r.Spec.Seed, "snap": res.Snap})
+	}
+	up := res.Calls["Update"]
+	cm := res.Calls["Commit"]
+	okC := c38Sum(up, "ok") + c38Sum(cm, "ok") + c38Sum(res.Calls["WriteBatch.Flush"], "ok")
+	blkC := c38Sum(up, "ErrBlockedWrites") + c38Sum(cm, "ErrBlockedWrites")
+	rdC := c38Sum(res.Calls["View+Get"], "ok") + c38Sum(res.Calls["View+Iterate"], "ok") + c38Sum(res.Calls["NewTransaction"], "ok")
+	closed := res.CloseReturned > 0
+	fillsets := [][]bool{{false}, {true}, {true, false}, {false, false, true}, {true, true, false}, {}}
+	switch {
+	case sig == "F14-commit-racing-close-hangs-or-panics" && strings.Contains(r.Stderr, "send on closed channel"):
+		// the panic flavour of F14 (forced by the hook or hit by the stress): the witness schedule
+		p := &c38Prog{}
+		p.do("E_commit", "L_acq", "H_ts", "H_check", "E_close", "C_gc", "C_sig", "W_sig", "W_default", "W_final", "J_done", "C_waitw",
+			"C_closech", "C_mt", "C_stopf", "F_exit", "C_waitf", "K0_exit", "KO_exit", "C_waitc", "C_orc", "H_send")
+		emit("f14-panic", false, p, c38Exp{closed: true, crashed: true, hungC: 1}, 0)
+		return
+	case sig == "F14-commit-racing-close-hangs-or-panics":
+		p := &c38Prog{}
+		p.do("E_commit", "L_acq", "H_ts", "H_check", "E_close", "C_gc", "C_sig", "W_sig", "W_default", "W_final", "J_done", "C_waitw",
+			"H_send", "C_closech", "C_mt", "C_stopf", "F_exit", "C_waitf", "K0_exit", "KO_exit", "C_waitc", "C_orc")
+		emit("f14-hang", false, p, c38Exp{closed: true, hungC: 1}, 0)
+		return
+	case sig == "c38-newtransaction-racing-close-hangs":
+		p := &c38Prog{}
+		p.do("E_commit", "L_acq", "H_ts", "E_read", "E_close", "C_gc", "C_sig", "W_sig", "W_default", "W_final", "J_done", "C_waitw",
+			"C_closech", "C_mt", "C_stopf", "F_exit", "C_waitf", "K0_exit", "KO_exit", "C_waitc", "C_orc", "H_check")
+		emit("newtxn-hang", false, p, c38Exp{blk: 1, closed: true, hungR: 1}, 0)
+		return
+	case sig != "":
+		return // outside the model (e.g. Close racing DropAll): the oracle failure stands alone
+	}
+	if !res.Completed {
+		return
+	}
+	for v := 0; v < 6; v++ {
+		fills := fillsets[(v+int(r.Spec.Seed))%len(fillsets)]
+		p := &c38Prog{}
+		e := c38Exp{}
+		a := c38Min(okC, 4+c.Rng.Intn(8))
+		rd := c38Min(rdC, 1+c.Rng.Intn(3))
+		switch r.Spec.Scenario {
+		case "stall", "batch-subscribe", "streamwriter", "gc-flatten":
+			pre := s + m + 3
+			if r.Spec.Scenario == "stall" && res.Snap.StallSeen > 0 && okC >= pre && v < 3 {
+				acked, infl := p.stallPrefix(m, s, res.Snap.FlushFull > 0 && v > 0)
+				e.ok = acked + infl
+				for i := 0; i < rd; i++ {
+					p.do("E_read")
+				}
+				p.runQ([]bool{false})
+				e.rd = rd
+			}
+			for i := 0; i < a; i++ {
+				if c.Rng.Intn(3) == 0 {
+					p.do("E_commit")
+				} else {
+					p.send()
+				}
+				if i%3 == 2 {
+					p.run(1+c.Rng.Intn(9), fills)
+				}
+				if i < rd {
+					p.do("E_read")
+					e.rd++
+				}
+			}
+			e.ok += a
+			if r.Spec.Scenario == "gc-flatten" {
+				p.do("E_gc", "E_gc") // the second call is rejected (garbageCh held)
+				if v%2 == 0 {
+					p.do("G_none") // ErrNoRewrite
+				} else {
+					e.ok++ // the rewrite's batchSet request goes through the pipeline and is acknowledged
+				}
+			}
+			p.runQ(fills)
+			if closed {
+				if r.Spec.Scenario == "gc-flatten" {
+					p.do("E_gc") // GC racing Close
+				}
+				p.do("E_close")
+				p.runQ(fills)
+				e.closed = true
+			}
+		case "close-inflight", "close-vs-newtxn":
+			for i := 0; i < a; i++ {
+				p.send()
+			}
+			p.runQ(fills)
+			e.ok = a
+			park := c38Min(blkC, 1+v%3)
+			if okC > a {
+				p.send() // a request still in writeCh when Close begins: it is served
+				e.ok++
+			}
+			if park > 0 {
+				p.parkTs()
+				for i := 1; i < park; i++ {
+					p.do("E_commit")
+				}
+			}
+			for i := 0; i < rd; i++ {
+				p.do("E_read")
+			}
+			e.rd = rd
+			p.do("E_close")
+			if v%2 == 1 && park > 0 {
+				p.do("E_commit") // a commit that begins after Close began
+				park++
+			}
+			e.blk = park
+			p.runQ(fills)
+			e.closed = closed
+		case "drop":
+			dp := res.Calls["DropPrefix"]
+			da := res.Calls["DropAll"]
+			dok := c38Sum(dp, "ok") + c38Sum(da, "ok")
+			dbl := c38Sum(dp, "ErrBlockedWrites") + c38Sum(da, "ErrBlockedWrites")
+			for i := 0; i < a; i++ {
+				p.send()
+				if i%2 == 1 {
+					p.run(3, fills)
+				}
+			}
+			e.ok = a
+			if dok > 0 {
+				p.do("E_drop")
+				if blkC > 0 {
+					p.parkTs()
+					e.blk = 1
+				}
+				if dbl > 0 {
+					p.do("E_drop")
+					e.dblk = 1
+				}
+				if v%2 == 1 {
+					// DropAll: the memtable is thrown away instead of flushed
+					p.run(40, fills)
+				}
+				p.runQ(fills)
+				e.drop = 1
+				// writes work again after the drop
+				p.send()
+				p.runQ(fills)
+				e.ok++
+			} else {
+				p.runQ(fills)
+			}
+			if closed {
+				p.do("E_close")
+				p.runQ(fills)
+				e.closed = true
+			}
+		default:
+			return
+		}
+		emit(r.Spec.Scenario, true, p, e, v)
+	}
+}
